@@ -143,6 +143,9 @@ func (env *SpecEnv) lookupIdent(name string) (SVal, error) {
 	if v, ok := env.binders[name]; ok {
 		return v, nil
 	}
+	if v, ok := e.snaps[name]; ok {
+		return v, nil
+	}
 	if env.results != nil {
 		if name == "result" && len(env.results) >= 1 {
 			return env.fromVal(env.results[0])
